@@ -28,7 +28,8 @@ EXTRA = {
             ("gapic/schema/wrappers.py", "Method.flat_ref_types"), ("gapic/generator/generator.py", "Generator._get_filename"),
             ("gapic/schema/api.py", "Proto.python_modules"), ("gapic/samplegen/samplegen.py", "_get_sample_imports")],
     "C12": [("gapic/schema/wrappers.py", "Service.with_context"), ("gapic/schema/wrappers.py", "Method.with_context"),
-            ("gapic/schema/wrappers.py", "Method.flattened_fields")],
+            ("gapic/schema/wrappers.py", "Method.flattened_fields"), ("gapic/schema/wrappers.py", "Service.names"),
+            ("gapic/schema/wrappers.py", "Method.ref_types"), ("gapic/schema/wrappers.py", "Method._client_output")],
     "C02": [("gapic/schema/api.py", "API.subpackages")],
     "C11": [("gapic/schema/api.py", "API.subpackages")],
 }
